@@ -521,6 +521,9 @@ func buildTestBinary(repo, ov, pkg, scratch string) (string, string) {
 }
 
 func doReplayFile(repo string, overlays map[string]string, file string) int {
+	if abs, err := filepath.Abs(file); err == nil {
+		file = abs
+	}
 	b, err := os.ReadFile(file)
 	if err != nil {
 		fmt.Fprintln(os.Stderr, err)
@@ -639,7 +642,20 @@ func batchValidate(repo string, overlays map[string]string, prog *gosx.Program, 
 			for _, o := range c.obs {
 				want = append(want, o.Name+"="+o.Value)
 			}
-			if res[i].Outcome != "end" || strings.Join(want, "\x00") != strings.Join(res[i].Obs, "\x00") {
+			// an observation that contains an opaque placeholder of a symbolic scalar (<sym:N>) cannot
+			// be compared with the native text: it is matched as a wildcard
+			same := len(want) == len(res[i].Obs)
+			if same {
+				for k := range want {
+					if strings.Contains(want[k], "<sym:") {
+						continue
+					}
+					if want[k] != res[i].Obs[k] {
+						same = false
+					}
+				}
+			}
+			if res[i].Outcome != "end" || !same {
 				bad++
 				notes = append(notes, fmt.Sprintf("DISAGREEMENT %s values=%v: engine end/%v, native %s/%v", c.Entry, c.Values, want, res[i].Outcome, res[i].Obs))
 			} else {
